@@ -260,7 +260,11 @@ class LibCalls:
         e = self.e
         self.use("iteration over a set / dict visits every element exactly once in an unspecified order")
         es = e.sort(elem_t)
-        if z3.is_quantifier(setz) or (z3.is_app(setz) and setz.decl().kind() not in (z3.Z3_OP_UNINTERPRETED, z3.Z3_OP_SELECT)):
+        def _has_lambda(t, d=0):
+            if z3.is_quantifier(t):
+                return True
+            return d < 6 and any(_has_lambda(c, d + 1) for c in t.children())
+        if _has_lambda(setz):
             # name the set so that it can serve as a trigger
             named = z3.Const(fresh_name("set"), setz.sort())
             y = z3.Const(fresh_name("y"), es)
